@@ -346,7 +346,7 @@ struct Tool {
       }
     }
     const bool well_conditioned = sensitivity < c05tool::conditioning_gate && c05tool::tool_numbers_comparable(plan);
-    long budget = 50 * ref.res.steps * plan.N + 2000 + (plan.alloc_stride > 0 ? 500000 : 0);
+    long budget = 50 * ref.res.steps * plan.N + 2000 + (plan.alloc_stride > 0 ? 500000 : 0) + (plan.stall_s > 0 ? (long)plan.stall_s * 20 * 6 * plan.N : 0);
     Outcome o = run_tool(plan, c, plan.N, g_scratch + "/run", spec, budget, false);
     rep.absorb(o.res);
     rep.decisions = o.res.decisions;
